@@ -3,7 +3,6 @@ Clean-path invariant (C18 Tier 2): preservation by the receiver's events — a f
 FULL flush, or the ACK-only flush at the end of an `Input`) and the `Input` of a datagram from A.
 -/
 import KcpVerif.Lemmas.SysCleanInv
-import KcpVerif.Lemmas.KcpOps
 
 namespace KcpVerif.SysC
 open KcpVerif KcpVerif.Gen KcpVerif.Kcp KcpVerif.Live KcpVerif.Wire KcpVerif.SysW KcpVerif.Sys
@@ -102,6 +101,20 @@ theorem clean_flushB {p : Par} {s : State} {gab gba : GLink} (h : Clean p s gab 
 
 /-! ### Q1: B inputs the head datagram of the link A → B -/
 
+theorem cwndOnAck_shape' (k : Kcp) (u : U32) : ∃ cw inc, cwndOnAck k u = { k with cwnd := cw, incr := inc } := by
+  unfold cwndOnAck
+  simp only []
+  repeat' split
+  all_goals exact ⟨_, _, rfl⟩
+
+theorem updateAck_shape' (k : Kcp) (rtt : U32) :
+    ∃ a b c, updateAck k rtt = { k with rx_srtt := a, rx_rttvar := b, rx_rto := c } := by
+  unfold updateAck smoothRtt
+  simp only []
+  split
+  · exact ⟨_, _, _, rfl⟩
+  · exact ⟨_, _, _, rfl⟩
+
 theorem o_sub (base a b : U32) (h : o base a ≤ o base b) : (b - a).toNat = o base b - o base a := by
   unfold o at *; bv_omega
 
@@ -167,7 +180,7 @@ theorem clean_inB {p : Par} {s : State} {t0 : Nat} {frs : List Frm} {grest gba :
     omega
   obtain ⟨rw, su, pr, q, hk, hq, hql, hfs, hur, hpn, hrt⟩ := inFrs_dataLike frs { k := s.B } h.bsb h.brb
     (fun fr hfr => (h.fab (t0, frs) (List.mem_cons_self ..) fr hfr).2) hio hrm (by rw [h.bw.1]; exact h.bw.2) rfl
-  obtain ⟨cw, inc, hcw⟩ := cwndOnAck_shape (inFrs true frs { k := s.B }).k s.B.snd_una
+  obtain ⟨cw, inc, hcw⟩ := cwndOnAck_shape' (inFrs true frs { k := s.B }).k s.B.snd_una
   refine ⟨hv, hpn, hrt, hfs, hur, ?_⟩
   have hk2 : cwndOnAck (inFrs true frs { k := s.B }).k s.B.snd_una =
       { s.B with rmt_wnd := rw, snd_buf := [], snd_una := su, probe := pr,
